@@ -40,9 +40,19 @@ def check(ctx: Ctx):
     oka = len(ap) == 1 and U(rv.expand(kwarg(ap[0], "time"), ap[0], stop=("dataset",))) == "dataset.attrs['time']" and U(rv.expand(ap[0].args[0], ap[0], stop=("dataset",))) == "Emulsion._from_hdf_dataset(dataset)"
     ctx.decide(oka, "IOAGREE", "EmulsionTimeCourse:reader", (r, ap[0]) if ap else r, "each frame is appended with its stored time", "frames are not appended as (Emulsion._from_hdf_dataset(dataset), time=dataset.attrs['time'])")
     io.check_time_column(ctx)
+    # readers rebuild collections through append(..., time=stored): 0.0 is a valid stored time, NaN a valid stored width,
+    # and the default copy of a stored frame keeps every member
+    from ..rules import nonetest, collections as col
+
+    nonetest.check(ctx, m.func(f"{TR}.DropletTrack.append"), "time", "the time stamp")
+    nonetest.check(ctx, m.func(f"{EM}.EmulsionTimeCourse.append"), "time", "the time stamp")
+    io.check_nan_width(ctx)
+    col.check_copy_total(ctx)
+    ctx.expect("NONETEST", 2)
+    ctx.expect("COPYALL", 2)
     io.check_exact_eq(ctx)
     io.check_layouts(ctx)
-    ctx.expect("IOAGREE", 22)
+    ctx.expect("IOAGREE", 23)
     ctx.expect("LAYOUT", 5)
     ctx.trust("h5py / NumPy store and load structured arrays bit-exactly", "a 6-digit zero-padded key preserves order for up to 10^6 members")
     ctx.assume("partial files after an exception in a later member are not analysed")
